@@ -523,3 +523,59 @@ func (w *World) Close() {
 		w.mvcc.Close()
 	}()
 }
+
+// ---------------------------------------------------------------- additions: region merge, heart-beat audit
+
+// mergeLocked merges the region containing key with its right neighbour: the left region survives with the right one's
+// end key and a newer epoch version, the right region's id disappears (mocktikv Cluster.Merge).  With emit it must be
+// called with the trace lock held (`topo merge <left id> <right id>`).
+func (w *World) mergeLocked(key []byte, emit bool) bool {
+	left, _, _, _ := w.cluster.GetRegionByKey(mocktikv.NewMvccKey(key))
+	if left == nil || len(left.EndKey) == 0 {
+		return false
+	}
+	right, _, _, _ := w.cluster.GetRegionByKey(left.EndKey)
+	if right == nil || right.Id == left.Id {
+		return false
+	}
+	w.cluster.Merge(left.Id, right.Id)
+	if emit {
+		w.emitLocked(fmt.Sprintf("topo merge %d %d", left.Id, right.Id))
+	}
+	return true
+}
+
+// Merge merges the region containing key with its right neighbour (emits `topo merge`); false if it is the last region.
+func (w *World) Merge(key []byte) bool {
+	w.rec.mu.Lock()
+	defer w.rec.mu.Unlock()
+	return w.mergeLocked(key, true)
+}
+
+// MergeFault merges the region containing key with its right neighbour just before the request it is attached to.
+func MergeFault(key []byte) *Fault {
+	return &Fault{Kind: Topo, Label: "merge", Do: func(w *World) { w.mergeLocked(key, true) }}
+}
+
+// Regions returns the number of regions of the cluster.
+func (w *World) Regions() int { return len(w.cluster.GetAllRegions()) }
+
+// AuditHeartbeat emits `audit heartbeat <startTS> <n>`: the scenario kept the client's current transaction open, with a key
+// locked, until a heart-beat was due several times over; the judge wants at least n `heartbeat` requests of it in the trace.
+func (w *World) AuditHeartbeat(c *Client, n int) {
+	w.rec.mu.Lock()
+	defer w.rec.mu.Unlock()
+	if c.txn != nil && !c.crashed.Load() {
+		w.emitLocked(fmt.Sprintf("audit heartbeat %d %d", c.txn.startTS, n))
+	}
+}
+
+// AuditHeld emits `audit held <startTS> <keys>`: the client reports these keys as locked by its current transaction (a lock
+// call on them just returned success); the judge wants the store to hold the transaction's lock on each of them.
+func (w *World) AuditHeld(c *Client, keys [][]byte) {
+	w.rec.mu.Lock()
+	defer w.rec.mu.Unlock()
+	if c.txn != nil && !c.crashed.Load() && len(keys) > 0 {
+		w.emitLocked(fmt.Sprintf("audit held %d %s", c.txn.startTS, HexList(keys)))
+	}
+}
